@@ -14,7 +14,7 @@ MANIFEST = {
                   "disjoint; CryptSampleCenc equals the reference CTR keystream over the protected bytes in order and the identity elsewhere. "
                   "Explored, not proved: that the Go code behaves like the model (correspondence on generated inputs, encrypted bytes "
                   "included) and the property predicates evaluated on real EncryptFragment output after an encode/decode cycle.",
-    "level_note": "Trusted: Coq kernel, extraction, OCaml/Go glue. Modelled, not verified: crypto/aes, cipher.NewCTR / NewCBCEncrypter "
+    "level_note": "Trusted: Coq kernel, extraction, OCaml/Go glue. The AVC slice-header size is tied to the C15 Gallina parser (coq/c15/C15Model.v, read-only import) in the Q cases; HEVC header sizes stay an oracle. Modelled, not verified: crypto/aes, cipher.NewCTR / NewCBCEncrypter "
                   "(CTR = 128-bit big-endian counter, byte-wise keystream continuation), avc/hevc.ParseSliceHeader (an oracle: its "
                   "observed sizes are inputs of the model), GetFullSamples. The Gallina AES is only the independent comparison cipher "
                   "(validated against the FIPS-197 vectors inside Coq).",
@@ -113,7 +113,7 @@ def run(ctx):
     ctx.cov["rule"] = ("corr: %d case lines (kinds %s); distinct = distinct case lines; search: %d random fragments through InitProtect/"
                        "EncryptFragment/encode/decode with the clauses of the property evaluated in the harness (partition, per-byte shape, "
                        "saiz/saio vs the encoded senc, IV sequence, Go crypto/aes driven by the harness' own CTR / CBC-pattern loops, "
-                       "trun/tfdt unchanged)" % (len(lines), kinds, ns))
+                       "trun/tfdt unchanged; 0-2 other encrypted fragments in front (non-zero moof start), InitProtectData via ExtractInitProtectData on the re-decoded init in 1/4 of the runs, AES-192/256 keys in 1/9)" % (len(lines), kinds, ns))
 
 
 def replay(ctx, path):
